@@ -49,7 +49,14 @@ pub fn dispatch(id: &str, tier: Tier, replay: Option<&str>, budget: Duration) ->
     }
     match id {
         "C05" | "C18" => e1::run(id, &mut report, budget),
-        "C01" | "C02" | "C03" => e2::run(id, &mut report, budget),
+        "C01" | "C02" => e2::run(id, &mut report, budget),
+        "C03" => {
+            e2::run(id, &mut report, budget);
+            let n = e5::unobtainable_cases(&mut report, "C03");
+            report.add("evaluations", n);
+            report.add("distinct_nontrivial", n);
+            report.set("evaluation_fault_cases", n);
+        }
         "C16" => c16::run(&mut report),
         "C08" => c08::run(&mut report),
         "C09" => c09::run(&mut report),
@@ -59,6 +66,7 @@ pub fn dispatch(id: &str, tier: Tier, replay: Option<&str>, budget: Duration) ->
         "C14" => c14::run(&mut report),
         "C19" => e7::run(&mut report),
         "C11" => e5::run_c11(&mut report, budget),
+        "C17" => e5::run_c17(&mut report, budget),
         "probe-e5" => { e5::probe(); return 0; }
         _ => {
             eprintln!("unknown property {id}");
